@@ -79,6 +79,20 @@ func OracleConvergence(prop string) func(w *Writers, hist []string) []explore.Vi
 					Detail: fmt.Sprintf("replica %d: %d entries held, %d listed: held={%s} listed=%v", i, len(all), len(vals), set, w.EIDs(vals))})
 				continue
 			}
+			// the whole ancestry of whatever was merged has been fetched: every link of a held entry is held
+			// (every block is fetchable in this world, and a batch is only joined once it is complete)
+			held := map[string]bool{}
+			for _, e := range all {
+				held[e.GetHash().String()] = true
+			}
+			for _, e := range all {
+				for _, c := range e.GetNext() {
+					if !held[c.String()] {
+						out = append(out, explore.Violation{Property: prop, Signature: "log-not-closed-under-ancestry",
+							Detail: fmt.Sprintf("replica %d holds %s but not its predecessor %s; held={%s}", i, w.EID(e), short4(c.String()), set)})
+					}
+				}
+			}
 			ref := RefOrder(all)
 			if strings.Join(hashesOf(ref), ",") != strings.Join(hashesOf(vals), ",") {
 				out = append(out, explore.Violation{Property: prop, Signature: "order-differs-from-lamport-sort",
